@@ -1,5 +1,5 @@
 use quote::{quote, ToTokens};
-use syn::{spanned::Spanned, Expr, Lit, Meta, Type};
+use syn::{spanned::Spanned, Expr, Lit, Meta, Type, UnOp};
 
 use super::path::path_to_string;
 
@@ -22,6 +22,19 @@ pub(crate) fn meta_2_expr(meta: &Meta) -> syn::Result<Expr> {
 
 #[inline]
 pub(crate) fn auto_adjust_expr(expr: Expr, ty: Option<&Type>) -> Expr {
+    // A negative number is a literal too, whether syn hands it over as a single (negative)
+    // literal or as a unary minus applied to one, which depends only on how and where it is spelled.
+    if let Expr::Unary(unary) = &expr {
+        if let (UnOp::Neg(_), Expr::Lit(lit)) = (&unary.op, unary.expr.as_ref()) {
+            if matches!(lit.lit, Lit::Int(_) | Lit::Float(_)) {
+                return match auto_adjust_expr(Expr::Lit(lit.clone()), ty) {
+                    Expr::Lit(_) => expr,
+                    _ => syn::parse2(quote!(::core::convert::Into::into(#expr))).unwrap(),
+                };
+            }
+        }
+    }
+
     match &expr {
         Expr::Lit(lit) => {
             match &lit.lit {
